@@ -111,9 +111,9 @@ theorem tx_last (c : JCtx) (e : Expr) (h : JsOkE e = true) : LastOk (txJ (toJsE 
       simp only [toJsE, txJ]
       exact lastOk_append _ n (jsIdLex_all n hn).1 (lastOk_id n hn)
     | prop =>
-      simp only [JsOkE, Bool.and_eq_true] at h
+      have hn : jsIdLex n = true := by simpa [JsOkE] using h
       simp only [toJsE, txJ]
-      exact lastOk_append _ n (jsIdLex_all n h.1).1 (lastOk_id n h.1)
+      exact lastOk_append _ n (jsIdLex_all n hn).1 (lastOk_id n hn)
   | un op a => cases op <;> (simp only [toJsE, txJ]; exact lastOk_paren _)
   | field a => simp only [toJsE, jcall, txJ]; exact lastOk_paren _
   | list as => simp only [toJsE, jcall, txJ]; exact lastOk_paren _
